@@ -668,20 +668,6 @@ Section Core.
     apply default_value_sep; exact H.
   Qed.
 
-  Lemma delattr_sep l a force skip : b <= l -> SEP (delattr_ ct rec l a force skip) (fun _ => True).
-  Proof.
-    intro Hl. unfold delattr_. sbi p Hp. sbi k Hk.
-    sbindT; [sgo|]. intros _ _.
-    destruct (if force then None else lookup_attr k a) as [sp|] eqn:Esp.
-    - assert (Hsp : specOk sp).
-      { destruct force; [discriminate|]. eapply lookup_attr_ok; eauto. }
-      sbind; [apply lookup_default_value_sep; exact Hsp|]. intros d Hd.
-      destruct (is_missing d).
-      + sbindT; [sprim|]. intros _ _. sbindT; [sgo; sprim|]. intros; sstep.
-      + eapply sep_weaken; [apply mutate_attr_sep; auto using freshv_okv|auto].
-    - sbindT; [sprim|]. intros _ _. sbindT; [sgo; sprim|]. intros; sstep.
-  Qed.
-
   Lemma instantiate_ty_sep t : SEP (instantiate_ty rec t) (freshv b).
   Proof.
     unfold instantiate_ty. destruct t; try (sstep; simpl; auto; fail); try apply rec_construct0_sep;
@@ -1114,6 +1100,21 @@ Section Core.
       intros v Hv'.
       destruct (ty_is_collection (a_ty sp)); [apply coll_prepare_sep; auto|now sret]. }
     destruct value; try exact Hgen. now sret.
+  Qed.
+
+  Lemma delattr_sep l a force skip : b <= l -> SEP (delattr_ ct rec l a force skip) (fun _ => True).
+  Proof.
+    intro Hl. unfold delattr_. sbi p Hp. sbi k Hk.
+    sbindT; [sgo|]. intros _ _.
+    destruct (if force then None else lookup_attr k a) as [sp|] eqn:Esp.
+    - assert (Hsp : specOk sp).
+      { destruct force; [discriminate|]. eapply lookup_attr_ok; eauto. }
+      sbind; [apply lookup_default_value_sep; exact Hsp|]. intros d Hd.
+      destruct (is_missing d).
+      + sbindT; [sprim|]. intros _ _. sbindT; [sgo; sprim|]. intros; sstep.
+      + sbind; [apply prepare_attr_value_sep; [exact Hsp|now apply freshv_okv|exact I]|]. intros v Hv.
+        eapply sep_weaken; [apply mutate_attr_sep; auto|auto].
+    - sbindT; [sprim|]. intros _ _. sbindT; [sgo; sprim|]. intros; sstep.
   Qed.
 
   Lemma setattr_sep l a v force skip :
